@@ -349,6 +349,12 @@ class Report:
             self.cov["samples"] = [{"note": "no correspondence cases were run (build or translation failed first)"}]
         if extra:
             self.cov.update(extra)
+        try:
+            import translate
+            if translate.MODES:
+                self.cov["translator_modes"] = dict(translate.MODES)
+        except Exception:
+            pass
         # schema: `exhaustive` is a boolean about the WHOLE input space; completely enumerated finite sub-spaces are listed separately
         if not isinstance(self.cov.get("exhaustive", False), bool):
             self.cov["exhaustive_subspaces"] = self.cov.pop("exhaustive")
@@ -360,7 +366,12 @@ class Report:
               "violations": len(lines), "known_findings_confirmed": sorted(self.known_hits)}
         EVID.mkdir(exist_ok=True)
         if getattr(self, "replay", None) is None:      # a single-case replay does not replace the evidence of the last full run
-            (EVID / f"{self.prop}.json").write_text(json.dumps(ev, indent=1, default=str))
+            if REPO.resolve() == Path("/repo"):
+                (EVID / f"{self.prop}.json").write_text(json.dumps(ev, indent=1, default=str))
+            else:                                      # a run against a scratch worktree (seeded / harmless change) is not evidence about /repo
+                d = REPLAYS / "scratch-evidence"
+                d.mkdir(parents=True, exist_ok=True)
+                (d / f"{self.prop}.json").write_text(json.dumps(ev, indent=1, default=str))
         for l in lines:
             print(l)
         print(f"[{self.prop}] tier={self.tier} seed={self.seed} evaluations={self.cov['evaluations']} distinct={len(self.distinct)} "
